@@ -232,6 +232,23 @@ CLAIMED = {
                  "predicates: failing prepipe and failing pipe sink exit 0. DKVPX/NIDX/DKVP/XTAB have no documented malformed inputs and are used for the other fault kinds only."),
         "design_ref": "DESIGN.md section 4 C17, section 5",
     },
+    "C04": {
+        "level": "exploration",
+        "technique": "differential property testing across batching/scheduling configurations (metamorphic: the configuration must not matter), seeded schedule perturbation via a build-tag hook, bounded-time termination checks, and an input-arrival state machine for the tail -f contract",
+        "text": ("Hypothesis-generated (stream of 0-40 records, 3 or 13 fields, stdin or 1-3 files, JSON or DKVP input; chain of 1-3 verbs from ~55 variants: "
+                 "streaming, non-streaming, early-exit incl. head after head and tee before head, print/emit/tee, failing puts, randomized verbs/functions under "
+                 "--seed, joins with good/malformed/missing left files, name-moving verbs followed by by-name lookups on lazily indexed wide records) run under 12 "
+                 "configurations: --records-per-batch 1,2,3,8,N-1,N,N+1,500 x GOMAXPROCS 1/2/4/16/default x --hash-records/--no-hash-records x --nr-progress-mod x 3 "
+                 "seeded schedule-perturbation profiles of the -tags verif build: exit status identical everywhere, stdout identical for successful runs. 10 "
+                 "early-exit chains on endless (`yes`, seqgen to 10^12) or huge producers must exit by themselves with the expected prefix at batch sizes 1/2/500. "
+                 "tail -f: lines written one at a time to an open pipe (dkvp/nidx/csv/tsv/json in, dkvp/csv/tsv/jsonl/xtab out, 14 streaming chains, "
+                 "--records-per-batch 1 --fflush): record i's output must be readable before line i+1 is written. Join left-file error vs end-of-stream: same "
+                 "exit status over 48-240 runs per left-file size."),
+        "note": ("Interleavings are sampled, not enumerated; a hang must reproduce in 2 of 3 runs at 20 s. Known finding: two random-drawing verbs in one chain under --seed "
+                 "share one RNG and are schedule-dependent (class excluded by construction and counted; exit status/termination still asserted). Stdout of failing runs "
+                 "is not compared (legitimately batch-dependent). Chains where a record-dropping verb feeds a satisfied head on an endless input are not asserted."),
+        "design_ref": "DESIGN.md section 4 C04, section 5",
+    },
 }
 
 NOT_YET = "check not built yet in this session (see DESIGN.md section 8 build order); will be claimed when its sub-checks run"
